@@ -1,5 +1,7 @@
 import NdnProofs.Props.C08
 import NdnGen.C08
+import NdnProofs.Props.TlvVarGen
+import NdnGen.TlvVar
 #print axioms Ndn.C08.announced_length_exact
 #print axioms Ndn.C08.enc_wellformed
 #print axioms Ndn.C08.writeTlNum_shortest
@@ -24,3 +26,11 @@ import NdnGen.C08
 #print axioms Ndn.Codec.parse_accept
 #print axioms Ndn.Codec.parse_size
 #print axioms Ndn.Codec.reencode_ok
+#print axioms Ndn.TlvVarGen.all_translated
+#print axioms Ndn.TlvVarGen.get_tl_num_size_eq
+#print axioms Ndn.TlvVarGen.write_tl_num_eq
+#print axioms Ndn.TlvVarGen.write_tl_num_neg
+#print axioms Ndn.TlvVarGen.pack_uint_bytes_eq
+#print axioms Ndn.TlvVarGen.parse_tl_num_eq
+#print axioms Ndn.TlvVarGen.parse_and_check_tl_eq
+#print axioms Ndn.TlvVarGen.shrink_length_eq
